@@ -10,6 +10,13 @@ Open Scope string_scope.
 
 Definition model_fields : list (string * list string) :=
  [
+  ("legacy.InitEvmParamsProposal", ["Title:string:no"; "Description:string:no"; "EvmParams:*EVMParams:ptr"; "FeemarketParams:*FeemarketParams:ptr"]);
+  ("crosschain.InitCrossChainParamsProposal", ["Title:string:no"; "Description:string:no"; "Params:*Params:ptr"; "ChainName:string:no"]);
+  ("crosschain.UpdateChainOraclesProposal", ["Title:string:no"; "Description:string:no"; "Oracles:[]string:slice"; "ChainName:string:no"]);
+  ("erc20.RegisterCoinProposal", ["Title:string:no"; "Description:string:no"; "Metadata:types.Metadata:no"]);
+  ("erc20.RegisterERC20Proposal", ["Title:string:no"; "Description:string:no"; "Erc20Address:string:no"; "Aliases:[]string:slice"]);
+  ("erc20.ToggleTokenConversionProposal", ["Title:string:no"; "Description:string:no"; "Token:string:no"]);
+  ("erc20.UpdateDenomAliasProposal", ["Title:string:no"; "Description:string:no"; "Denom:string:no"; "Alias:string:no"]);
   ("crosschain.BridgeCallArgs", ["DstChain:string:no"; "Refund:common.Address:no"; "Tokens:[]common.Address:slice"; "Amounts:[]*big.Int:slice"; "To:common.Address:no"; "Data:[]byte:slice"; "Value:*big.Int:ptr"; "Memo:[]byte:slice"]);
   ("crosschain.BridgeCoinAmountArgs", ["Token:common.Address:no"; "Target:[32]byte:no"]);
   ("crosschain.CancelSendToExternalArgs", ["Chain:string:no"; "TxID:*big.Int:ptr"]);
@@ -83,11 +90,9 @@ Definition out_of_scope_types : list string :=
   [ (* genesis state: operator-supplied at chain start, not network input *)
     "crosschain.GenesisState"; "erc20.GenesisState"; "erc20.TokenPair";
     (* stored records / helper types validated only from genesis or keeper code *)
-    "crosschain.BridgeValidator"; "crosschain.ERC20Token";
-    (* legacy gov v1beta1 Content: not sdk.Msg; reach the chain only inside the SDK's MsgSubmitProposal/MsgExecLegacyContent *)
-    "crosschain.InitCrossChainParamsProposal"; "crosschain.UpdateChainOraclesProposal";
-    "erc20.RegisterCoinProposal"; "erc20.RegisterERC20Proposal"; "erc20.ToggleTokenConversionProposal"; "erc20.UpdateDenomAliasProposal";
-    "legacy.InitEvmParamsProposal" ].
+    "crosschain.BridgeValidator";
+    (* (the legacy gov v1beta1 Content validators are modelled since they are reached by the SDK's v1beta1 MsgSubmitProposal handler) *)
+    "crosschain.ERC20Token" ].
 
 (* message structs WITHOUT a ValidateBasic that are not modelled: the legacy (v1..v7) message shells kept for decoding old
    blocks have no registered handler (baseapp refuses them: "no message handler found"); MsgUpdateCustomParams is
